@@ -2,5 +2,6 @@ SPECIFICATION TSpec
 INVARIANT C14_NeverInward
 INVARIANT C14_KeepsOrientation
 INVARIANT C14_LessThanTwoSteps
+INVARIANT C14_OnTenthOfStepExceptDoubleWiden
 INVARIANT C14_OnTenthOfStep
 CHECK_DEADLOCK FALSE
